@@ -137,3 +137,108 @@ V('c02-benign-remove-match', 'C02', 'silent', (C, '''        self.take(id, type_
             None => false,
         }'''))
 V('c02-benign-local-contains-direct', 'C02', 'silent', (L, '''        self._contains::<T>(id)''', '''        crate::anycache::AssetMap::contains_key(&self.assets, id, TypeId::of::<T>())'''))
+
+H = 'src/hot_reloading/mod.rs'
+HP = 'src/hot_reloading/paths.rs'
+HD = 'src/hot_reloading/dependencies.rs'
+HRc = 'src/hot_reloading/records.rs'
+HW = 'src/hot_reloading/watcher.rs'
+
+# ---- C07
+V('c07-map-drops-guard', 'C07', 'C07.R2', (E, '''            value: f(this.value),
+            #[cfg(feature = "hot-reloading")]
+            guard: this.guard,''', '''            value: f(this.value),
+            #[cfg(feature = "hot-reloading")]
+            guard: None,'''))
+V('c07-trymap-drops-guard', 'C07', 'C07.R2', (E, '''                value,
+                #[cfg(feature = "hot-reloading")]
+                guard: this.guard,''', '''                value,
+                #[cfg(feature = "hot-reloading")]
+                guard: None,'''))
+V('c07-zero-duration-lock', 'C07', 'C07.R3', (E, 'let _g = d.lock.write();', 'let _g = d.lock.write();\n                drop(_g);'))
+V('c07-bump-before-lock', 'C07', 'C07.R3', (E, '''                let _g = d.lock.write();
+                swap_any(&mut *self.value.get(), value.0.value.get_mut());
+                d.reload.increment();''', '''                d.reload.increment();
+                let _g = d.lock.write();
+                swap_any(&mut *self.value.get(), value.0.value.get_mut());'''))
+V('c07-read-lock-for-write', 'C07', 'C07.R3', (E, 'let _g = d.lock.write();', 'let _g = d.lock.read();'))
+V('c07-deref-before-guard', 'C07', 'C07.R1', (E, '''        #[cfg(feature = "hot-reloading")]
+        let guard = self.dynamic.as_ref().map(|d| d.lock.read());
+
+        AssetReadGuard {
+            value: unsafe { &*self.value.get() },''', '''        let value = unsafe { &*self.value.get() };
+        #[cfg(feature = "hot-reloading")]
+        let guard = self.dynamic.as_ref().map(|d| d.lock.read());
+
+        AssetReadGuard {
+            value,'''))
+V('c07-get-unchecked', 'C07', 'C07.R1', (E, '''        if self.dynamic.is_some() {
+            panic!(''', '''        if self.dynamic.is_some() && self.id.is_empty() {
+            panic!('''))
+V('c07-reload-does-not-wait', 'C07', 'C07.R5', (H, '''            // When the hot-reloading thread is done, it sends back our back our token
+            self.answers.wait_for_answer(token);''', '''            // fire and forget
+            let _ = token;'''))
+V('c07-events-update-local', 'C07', 'C07.R5', (HP, '''        if let CacheKind::Static(cache, reloader) = &mut self.cache {
+            let cache = BorrowedCache::new(cache, reloader, &self.source);
+            run_update(&mut self.to_reload, &mut self.deps, cache);
+        }
+    }
+
+    /// Drop''', '''        if let CacheKind::Static(cache, reloader) = &mut self.cache {
+            let cache = BorrowedCache::new(cache, reloader, &self.source);
+            run_update(&mut self.to_reload, &mut self.deps, cache);
+        } else if let Some((cache, reloader)) = self.last_local.take() {
+            let cache = BorrowedCache::new(unsafe { &*cache }, unsafe { &*reloader }, &self.source);
+            run_update(&mut self.to_reload, &mut self.deps, cache);
+        }
+    }
+
+    /// Drop'''), (HP, '''    cache: CacheKind,
+    deps: DepsGraph,
+}''', '''    cache: CacheKind,
+    deps: DepsGraph,
+    last_local: Option<(*const AssetMap, *const super::HotReloader)>,
+}'''), (HP, '''            cache: CacheKind::Local,
+            deps: DepsGraph::new(),''', '''            cache: CacheKind::Local,
+            deps: DepsGraph::new(),
+            last_local: None,'''), (HP, '''        if let CacheKind::Local = &mut self.cache {
+            let cache = BorrowedCache::new(cache, reloader, &self.source);
+            run_update(&mut self.to_reload, &mut self.deps, cache);
+        }
+    }
+
+    fn update_if_static''', '''        if let CacheKind::Local = &mut self.cache {
+            self.last_local = Some((cache, reloader));
+            let cache = BorrowedCache::new(cache, reloader, &self.source);
+            run_update(&mut self.to_reload, &mut self.deps, cache);
+        }
+    }
+
+    fn update_if_static'''))
+V('c07-benign-write-helper', 'C07', 'silent', (E, '''        if let Some(d) = &self.dynamic {
+            unsafe {
+                let _g = d.lock.write();
+                swap_any(&mut *self.value.get(), value.0.value.get_mut());
+                d.reload.increment();
+                d.reload_global.store(true, Ordering::Release);
+            }
+            return;
+        }
+
+        wrong_handle_type();
+    }''', '''        match &self.dynamic {
+            Some(d) => self.write_locked(d, value),
+            None => wrong_handle_type(),
+        }
+    }
+
+    #[cfg(feature = "hot-reloading")]
+    fn write_locked(&self, dynamic: &Dynamic, mut new_value: CacheEntry) {
+        let guard = dynamic.lock.write();
+        unsafe {
+            swap_any(&mut *self.value.get(), new_value.0.value.get_mut());
+        }
+        dynamic.reload.increment();
+        dynamic.reload_global.store(true, Ordering::Release);
+        drop(guard);
+    }'''))
